@@ -12,6 +12,7 @@ import (
 	"fmt"
 	"os"
 	"os/exec"
+	"runtime/debug"
 	"strconv"
 	"strings"
 	"sync"
@@ -27,11 +28,58 @@ const (
 	ticksPerSs = 100.0
 )
 
+// tail keeps the last bytes a worker wrote on stderr: the Go runtime reports unrecoverable
+// errors there ("fatal error: stack overflow", "concurrent map writes", "out of memory")
+type tail struct {
+	mu   sync.Mutex
+	head []byte // text from the first "fatal error:" / "panic:" on (first 4 kB; the trace can be long)
+	b    []byte
+}
+
+func (t *tail) Write(p []byte) (int, error) {
+	t.mu.Lock()
+	if t.head != nil {
+		if len(t.head) < 4096 {
+			t.head = append(t.head, p...)
+		}
+	} else {
+		for _, key := range []string{"fatal error:", "panic:"} {
+			if i := strings.Index(string(p), key); i >= 0 {
+				t.head = append([]byte{}, p[i:]...)
+				break
+			}
+		}
+	}
+	t.b = append(t.b, p...)
+	if len(t.b) > 1<<16 {
+		t.b = t.b[len(t.b)-(1<<15):]
+	}
+	t.mu.Unlock()
+	return len(p), nil
+}
+
+func (t *tail) fatal() string {
+	t.mu.Lock()
+	defer t.mu.Unlock()
+	l := string(t.head)
+	if k := strings.IndexByte(l, '\n'); k >= 0 {
+		l = l[:k]
+	}
+	return l
+}
+
+var (
+	workerDeaths int64
+	deathMu      sync.Mutex
+	deathNotes   []string // "case line => fatal error: ..." of the workers that died
+)
+
 type child struct {
-	cmd   *exec.Cmd
-	in    *bufio.Writer
-	out   chan string // one line per case; closed when the child dies
-	cases int
+	errTail *tail
+	cmd     *exec.Cmd
+	in      *bufio.Writer
+	out     chan string // one line per case; closed when the child dies
+	cases   int
 }
 
 func startChild() *child {
@@ -44,15 +92,13 @@ func startChild() *child {
 	cmd.Env = append(os.Environ(), "C08_WORKER=1")
 	cmd.ExtraFiles = []*os.File{pw}
 	stdin, _ := cmd.StdinPipe()
-	cmd.Stdout, cmd.Stderr = nil, nil
-	if os.Getenv("C08_WORKER_STDERR") != "" {
-		cmd.Stderr = os.Stderr
-	}
+	et := &tail{}
+	cmd.Stdout, cmd.Stderr = nil, et
 	if err := cmd.Start(); err != nil {
 		panic(err)
 	}
 	pw.Close()
-	c := &child{cmd: cmd, in: bufio.NewWriter(stdin), out: make(chan string, 1)}
+	c := &child{errTail: et, cmd: cmd, in: bufio.NewWriter(stdin), out: make(chan string, 1)}
 	go func() {
 		sc := bufio.NewScanner(pr)
 		sc.Buffer(make([]byte, 1<<20), 1<<24)
@@ -107,6 +153,20 @@ func (c *child) runCase(line string) (string, bool) {
 		select {
 		case o, ok := <-c.out:
 			if !ok {
+				// the worker died while running this case: an unrecoverable runtime error
+				// (stack overflow, concurrent map writes, out of memory) or a panic in another
+				// goroutine: the packet loop of a real process would be down
+				c.cmd.Wait()
+				atomic.AddInt64(&workerDeaths, 1)
+				deathMu.Lock()
+				if len(deathNotes) < 8 {
+					l := line
+					if len(l) > 160 {
+						l = l[:160] + "..."
+					}
+					deathNotes = append(deathNotes, l+" => worker died: "+c.errTail.fatal())
+				}
+				deathMu.Unlock()
 				return "panic", false
 			}
 			return o, c.cases < recycleAt
@@ -178,6 +238,9 @@ func (p *pool) runOne(line string) string { return p.runAll([]string{line})[0] }
 
 // workerMain is the child side.
 func workerMain() {
+	// a runaway recursion must die quickly ("fatal error: stack overflow", exit status 2) instead
+	// of growing the stack to the 1 GB default
+	debug.SetMaxStack(32 << 20)
 	out := os.NewFile(3, "obs")
 	sc := bufio.NewScanner(os.Stdin)
 	sc.Buffer(make([]byte, 1<<20), 1<<24)
@@ -199,7 +262,7 @@ func execCase(kind string, args []string) (obs string) {
 	defer func() {
 		if e := recover(); e != nil {
 			obs = "panic"
-			if kind == "dnsproc" { // Go-side oracle kinds carry the panic class (narrow finding keys)
+			if kind == "dnsproc" || kind == "dnsq" || kind == "dnsans" { // Go-side oracle kinds carry the panic class (narrow finding keys)
 				msg := fmt.Sprint(e)
 				switch {
 				case strings.Contains(msg, "slice bounds out of range"):
